@@ -1,10 +1,10 @@
 SPECIFICATION GSpec
 CONSTANTS
-  Conns <- AllConns
-  InitAuthed <- AllConns
-  Svcs = {1}
-  Objs <- OneObj
-  Methods = {100}
+  Conns <- OneConn
+  InitAuthed <- OneConn
+  Svcs = {1, 2}
+  Objs <- ObjsT
+  Methods = {100, 101}
   GenericActs = {8}
   FailTags = {}
   QCap = 10
@@ -18,13 +18,13 @@ CONSTANTS
   MaxSends = 0
   Hangups = FALSE
   Dev_CapMapUnsynchronised = FALSE
-  Calls <- KA
-  ClientOf <- clientA
-  EpOf <- epA
-  SvcOf <- svcA
-  ObjOf <- objA
-  ActOf <- actA
-  Raws <- rawA
+  Calls <- KT4
+  ClientOf <- clientT
+  EpOf <- epT
+  SvcOf <- svcT
+  ObjOf <- objT
+  ActOf <- actT
+  Raws <- rawT
   Deviations <- NoDev
 INVARIANTS Export AtMostOneOutcome OwnResult ExecOnceIfOk ExecAtMostOnce PostAtMostOnce PostNoResponse FramesOwed OnlyCallAndPostExecute
 CHECK_DEADLOCK FALSE
